@@ -1891,7 +1891,8 @@ class Side:
         self.map = vmf_file
         if len(planes) != 3:
             raise ValueError('Must have only 3 planes!')
-        self.planes = planes
+        # Tuples are accepted, but everything else (export included) works with Vecs.
+        self.planes = [point if isinstance(point, Vec) else Vec(point) for point in planes]
         self.id = vmf_file.face_id.get_id(des_id)
         self.lightmap = lightmap
         self.smooth = smoothing
